@@ -271,7 +271,7 @@ fn rewrite_closure_fn_decl(
         }
         ast::ClosureBinder::For { generic_params, .. } => {
             let lifetime_str =
-                rewrite_bound_params(context, shape, generic_params).unknown_error()?;
+                rewrite_bound_params(context, shape, generic_params)?.unknown_error()?;
             format!("for<{lifetime_str}> ")
         }
         ast::ClosureBinder::NotPresent => "".to_owned(),
